@@ -179,8 +179,20 @@ func (d *Decoder) decodeSet(mem MemCache, msg *Message) error {
 		}
 	}
 
-	// the next set should be greater than 4 bytes otherwise that's padding
-	for err == nil && setHeader.Length > uint16(d.reader.ReadCount()-startCount) && d.reader.Len() > 4 && setHeader.Length-uint16(d.reader.ReadCount()-startCount) > 4 {
+	// A template record occupies at least four octets (template id and field count),
+	// a data record at least the minimum length its template describes.
+	minRecordLen := 4
+	if err == nil && setHeader.SetID > 255 {
+		if minRecordLen = tr.minRecordLen(); minRecordLen == 0 {
+			err = nonfatalError{fmt.Errorf("%s ipfix template id# %d describes empty records",
+				d.raddr.String(),
+				setHeader.SetID,
+			)}
+		}
+	}
+
+	// whatever is left of the set and is shorter than the shortest possible record is padding
+	for err == nil && int(setHeader.Length)-(d.reader.ReadCount()-startCount) >= minRecordLen {
 		if setID := setHeader.SetID; setID == 2 || setID == 3 {
 			// Template record or template option record
 
@@ -477,6 +489,24 @@ func (tr *TemplateRecord) unmarshalOpts(r *reader.Reader) error {
 		tr.FieldSpecifiers = append(tr.FieldSpecifiers, tf)
 	}
 	return nil
+}
+
+// minRecordLen returns the smallest number of octets a data record of this
+// template can occupy (a variable-length field takes at least its length octet).
+func (tr *TemplateRecord) minRecordLen() int {
+	var n int
+
+	for _, specifiers := range [][]TemplateFieldSpecifier{tr.ScopeFieldSpecifiers, tr.FieldSpecifiers} {
+		for _, f := range specifiers {
+			if f.Length == 65535 {
+				n++
+			} else {
+				n += int(f.Length)
+			}
+		}
+	}
+
+	return n
 }
 
 func (d *Decoder) getDataLength(fieldSpecifierLen uint16, t FieldType) (uint16, error) {
